@@ -89,3 +89,12 @@ class PathValues:
 
     def value(self, name):
         return self.env.get(name)
+
+
+def returned_values(fnode, where='?'):
+    """Resolved return expressions of every enumerated path through a function body."""
+    from .paths import Enumerator
+    out = []
+    for p in Enumerator(where=where).paths(fnode.body):
+        out.extend(PathValues(p).returns)
+    return out
